@@ -511,6 +511,18 @@ func c10Random(c *core.Ctx) {
 				}))
 			}
 			if mode == ref.Parse {
+				if n.Kind == spec.Struct && c.R.Intn(8) == 0 {
+					// the record is a Go struct that has none of the fields the schema asks for: every field is absent, and the issues
+					// sit under the documented keys (zog tag, else schema key) - never under names taken from the destination
+					data = []any{struct{ Unrelated int }{7}, &struct{ Zzz, Other string }{"a", "b"}, struct{}{}}[c.R.Intn(3)]
+					if c.R.Bool() {
+						// ... or a value of the destination's own type: its fields are found under a key only where the key IS the Go field name
+						func() {
+							defer func() { _ = recover() }()
+							data = obs.Make(n.GoType(), val).Interface()
+						}()
+					}
+				}
 				o = run.Parse(b, data, nil, opts...)
 				exp = ref.Eval(n, &ref.Env{Mode: mode}, data, nil)
 				input = data
